@@ -1,6 +1,19 @@
 //! Item algebras driven through the real `Segtree`: two harness-defined lawful algebras (a finite
 //! non-commutative one that closes, and the free algebra) and the crate's built-in items; at the end
 //! `Via` / `Pair`, which put a harness item and a built-in item into one `Combinator` as independent parts.
+//!
+//! Trait surface.  The crate asks very little of an item or a modifier type today (`T: Clone`, `T: Default`
+//! for the searches, `T, M: Debug` for `debug()`), but it may tighten a bound without that being a defect.
+//! So every harness modifier type implements `Copy, Debug, Default, Eq, Ord, Hash` (it is a bound of
+//! `Alg::M`, hence usable by the crate on every explored tree), every harness item type implements whatever
+//! of `Clone, Copy, Debug, Default, PartialEq, Eq, Hash, PartialOrd, Ord` its fields allow, and the value
+//! types put inside the built-in items (`Z3`, `Z4`, `Rec`) implement the usual arithmetic / ordering traits.
+//! None of these impls is a convenience the crate may rely on: `T::default()` is the merge identity (the
+//! crate requires that), `==` is exact equality of all fields, but `M::default()` is NOT the identity
+//! modifier unless the modifiers are plain additive numbers — it is an ordinary, non-identity letter of the
+//! explored alphabet (const0 for W, :=0 for A3, a letter for Fr, the complement for Flip, a progression
+//! for AP), so a shortcut keyed on "equals default", "equals zero" or "is zero-sized" is exercised by the
+//! ordinary explorations.  `default_mod` measures this per algebra and `main` refuses to run otherwise.
 
 use rlib_num_traits::ZeroOne;
 use rlib_segtree::segtree_items::{Combinator, Max, MaxAdd, Min, MinAdd, Sum, SumAdd};
@@ -30,12 +43,17 @@ pub enum Pred {
 
 pub trait Alg: Sync + Send + 'static {
     type T: SegtreeItem<Self::M> + Clone + Default + Send + Sync + std::fmt::Debug;
-    type M: Send + Sync + std::fmt::Debug;
+    /// every std trait a library could reasonably start to require of a modifier
+    type M: Copy + Default + Eq + Ord + std::hash::Hash + Send + Sync + std::fmt::Debug + 'static;
     /// logical element of the plain reference array
     type E: Clone + Send + Sync + PartialEq + std::fmt::Debug;
     /// what a user can observe of an aggregate
     type Obs: PartialEq + std::fmt::Debug;
     const NAME: &'static str;
+    /// Does `M::default()` act as the identity on the plain array?  Allowed only where the modifiers are
+    /// plain additive numbers (zero) or where modifying is a no-op altogether (the non-lazy built-ins with
+    /// `M = ()`); everywhere else the default must be a non-identity letter of the alphabet.
+    const DEFAULT_MOD_IS_IDENTITY: bool = false;
     /// number of distinct element letters (`elem(idx, ..)` for idx < n_elems)
     fn n_elems() -> usize;
     fn elem(idx: usize, fresh: &mut u32) -> Self::E;
@@ -57,6 +75,13 @@ pub trait Alg: Sync + Send + 'static {
         true
     }
     fn mods() -> Vec<Self::M>;
+    /// Does the algebra restrict which modifications are inside the domain (see `mod_ok`)?
+    const HAS_DOMAIN: bool = false;
+    /// Is modifying element e by m inside the property's domain (the result fits the value type)?  A range
+    /// modification that would take some covered element out of the domain is not explored (and counted).
+    fn mod_ok(_e: &Self::E, _m: &Self::M) -> bool {
+        true
+    }
     /// the modifier applied to ONE element of the plain array
     fn apply(e: &mut Self::E, m: &Self::M);
     /// the same for the k-th element (0-based) of the modified range: modifiers such as "add an arithmetic
@@ -100,11 +125,35 @@ pub trait Alg: Sync + Send + 'static {
     fn encode_elem(e: &Self::E, out: &mut Vec<u8>);
 }
 
+/// What `M::default()` is for an algebra, measured on the alphabets the explorations use.
+pub struct DefaultMod {
+    pub rendering: String,
+    /// it is one of the modifiers the explorations apply (for a range starting at 0)
+    pub in_alphabet: bool,
+    /// applying it to some element letter changes the plain array
+    pub acts: bool,
+    pub zero_sized: bool,
+}
+
+pub fn default_mod<A: Alg>() -> DefaultMod {
+    let d = A::M::default();
+    let in_alphabet = (0..A::mods().len()).any(|i| A::modifier(i, 0) == d);
+    let mut fresh = 0u32;
+    let acts = (0..A::n_elems()).any(|i| {
+        let e = A::elem(i, &mut fresh);
+        let mut x = e.clone();
+        A::apply_at(&mut x, &d, 0);
+        x != e
+    });
+    DefaultMod { rendering: format!("{:?}", d), in_alphabet, acts, zero_sized: std::mem::size_of::<A::M>() == 0 }
+}
+
 // ------------------------------------------------------------------------------------------------
 // W: words over {0,1} (free monoid: non-commutative merge) with the four functions {0,1}->{0,1} as
 // modifiers (not ∘ const0 != const0 ∘ not).  Finite for a fixed n, so the state space closes.
+// The modifier type is u8 (a truth table), so `M::default()` = 0b00 = const0: not the identity.
 
-#[derive(Clone, Debug, PartialEq)]
+#[derive(Clone, Copy, Debug, PartialEq, Eq, Hash, PartialOrd, Ord)]
 pub struct W {
     pub len: u8,
     pub bits: u64,
@@ -248,9 +297,9 @@ impl Alg for AlgW {
 
 // ------------------------------------------------------------------------------------------------
 // Z3 values with affine modifiers generated by +1 and :=0 (second closing algebra): value word +
-// pending affine map x -> a*x + b with a in {0,1}.
+// pending affine map x -> a*x + b with a in {0,1}.  `M::default()` = (0, 0) = the assignment :=0.
 
-#[derive(Clone, Debug, PartialEq)]
+#[derive(Clone, Debug, PartialEq, Eq, Hash, PartialOrd, Ord)]
 pub struct A3 {
     pub vals: Vec<u8>,
     /// pending map: (a, b) meaning x -> a*x + b (mod 3), identity = (1, 0)
@@ -348,9 +397,10 @@ impl Alg for AlgA3 {
 // ------------------------------------------------------------------------------------------------
 // Fr: the free algebra.  An aggregate is the list of (element id, modifiers applied to it in order);
 // a pending tag is the list of modifier ids not yet forwarded.  Every lawful (T, M) is a homomorphic
-// image of it, so a wrong term here is a wrong answer for some lawful item type.
+// image of it, so a wrong term here is a wrong answer for some lawful item type.  No letter is the
+// identity; the letters are 1 and 0, so `M::default()` is a letter.
 
-#[derive(Clone, Debug, PartialEq, Default)]
+#[derive(Clone, Debug, PartialEq, Eq, Hash, PartialOrd, Ord, Default)]
 pub struct Fr {
     pub elems: Vec<(u32, Vec<u8>)>,
     pub pend: Vec<u8>,
@@ -401,7 +451,7 @@ impl Alg for AlgFr {
         Some(Fr { elems: vec![e.clone()], pend: vec![2] })
     }
     fn mods() -> Vec<u8> {
-        vec![1, 2]
+        vec![1, 0]
     }
     fn apply(e: &mut (u32, Vec<u8>), m: &u8) {
         e.1.push(*m);
@@ -448,16 +498,29 @@ impl Alg for AlgFr {
 }
 
 // ------------------------------------------------------------------------------------------------
-// tiny modular value types for the built-in items that can close
+// tiny modular value types for the built-in items that can close (with the arithmetic / ordering surface
+// of a primitive integer, should a built-in item start to ask for more of its value type)
 
 macro_rules! zmod {
     ($name:ident, $m:expr) => {
-        #[derive(Clone, Copy, Debug, PartialEq, Default)]
+        #[derive(Clone, Copy, Debug, PartialEq, Eq, Hash, PartialOrd, Ord, Default)]
         pub struct $name(pub u8);
         impl std::ops::Add for $name {
             type Output = $name;
             fn add(self, r: $name) -> $name {
                 $name((self.0 + r.0) % $m)
+            }
+        }
+        impl std::ops::Sub for $name {
+            type Output = $name;
+            fn sub(self, r: $name) -> $name {
+                $name((self.0 + $m - r.0 % $m) % $m)
+            }
+        }
+        impl std::ops::Neg for $name {
+            type Output = $name;
+            fn neg(self) -> $name {
+                $name(($m - self.0 % $m) % $m)
             }
         }
         impl std::ops::Mul for $name {
@@ -466,9 +529,38 @@ macro_rules! zmod {
                 $name((self.0 * r.0) % $m)
             }
         }
+        impl std::ops::AddAssign for $name {
+            fn add_assign(&mut self, r: $name) {
+                *self = *self + r;
+            }
+        }
+        impl std::ops::SubAssign for $name {
+            fn sub_assign(&mut self, r: $name) {
+                *self = *self - r;
+            }
+        }
+        impl std::ops::MulAssign for $name {
+            fn mul_assign(&mut self, r: $name) {
+                *self = *self * r;
+            }
+        }
+        impl std::iter::Sum for $name {
+            fn sum<I: Iterator<Item = $name>>(it: I) -> $name {
+                it.fold($name(0), |a, b| a + b)
+            }
+        }
+        impl From<u8> for $name {
+            fn from(v: u8) -> $name {
+                $name(v % $m)
+            }
+        }
         impl ZeroOne for $name {
             const ZERO: $name = $name(0);
             const ONE: $name = $name(1);
+        }
+        impl rlib_num_traits::MinMax for $name {
+            const MIN: $name = $name(0);
+            const MAX: $name = $name($m - 1);
         }
     };
 }
@@ -482,6 +574,7 @@ impl Alg for AlgSumZ3 {
     type E = u8;
     type Obs = u8;
     const NAME: &'static str = "Sum<Z3>";
+    const DEFAULT_MOD_IS_IDENTITY: bool = true;
     fn n_elems() -> usize {
         3
     }
@@ -523,6 +616,7 @@ impl Alg for AlgSumAddZ4 {
     /// (sum, number of elements mod 4)
     type Obs = (u8, u8);
     const NAME: &'static str = "SumAdd<Z4>";
+    const DEFAULT_MOD_IS_IDENTITY: bool = true;
     fn n_elems() -> usize {
         2
     }
@@ -537,8 +631,9 @@ impl Alg for AlgSumAddZ4 {
         t.md = Z4(1);
         Some(t)
     }
+    /// the last one is `Z4::default()`, the identity of an additive modifier
     fn mods() -> Vec<Z4> {
-        vec![Z4(1), Z4(2)]
+        vec![Z4(1), Z4(2), Z4(0)]
     }
     fn apply(e: &mut u8, m: &Z4) {
         *e = (*e + m.0) % 4;
@@ -573,11 +668,14 @@ macro_rules! minmax_alg {
             /// None = identity (empty range is never observed through ask)
             type Obs = u8;
             const NAME: &'static str = $name;
+            const DEFAULT_MOD_IS_IDENTITY: bool = true;
+            /// ordinary values and the two limits of the type (one of which equals the item's Default, the
+            /// identity of the merge: a genuine element may hold it)
             fn n_elems() -> usize {
-                3
+                5
             }
             fn elem(idx: usize, _f: &mut u32) -> u8 {
-                idx as u8 + 1
+                [1, 2, 3, u8::MIN, u8::MAX][idx]
             }
             fn item(e: &u8) -> $item<u8> {
                 $item::new(*e)
@@ -593,7 +691,7 @@ macro_rules! minmax_alg {
                 t.v
             }
             fn preds(_n: usize) -> Vec<Pred> {
-                (0..=4).map(|t| Pred::$pred(t)).collect()
+                [0, 1, 2, 3, 4, 254, 255].into_iter().map(|t| Pred::$pred(t)).collect()
             }
             fn holds(p: &Pred, o: &u8) -> bool {
                 match p {
@@ -618,7 +716,7 @@ fn enc_i64(v: i64, out: &mut Vec<u8>) {
 }
 
 macro_rules! minmax_add_alg {
-    ($alg:ident, $item:ident, $name:expr, $pick:ident, $pred:ident, $cmp:tt, $elems:expr, $mods:expr) => {
+    ($alg:ident, $item:ident, $name:expr, $pick:ident, $pred:ident, $cmp:tt, $elems:expr, $mods:expr, $domain:expr) => {
         pub struct $alg;
         impl Alg for $alg {
             type T = $item<i64>;
@@ -626,6 +724,12 @@ macro_rules! minmax_add_alg {
             type E = i64;
             type Obs = i64;
             const NAME: &'static str = $name;
+            const DEFAULT_MOD_IS_IDENTITY: bool = true;
+            /// whether some modification of the alphabet can take an element out of i64
+            const HAS_DOMAIN: bool = $domain;
+            fn mod_ok(e: &i64, m: &i64) -> bool {
+                e.checked_add(*m).is_some()
+            }
             fn n_elems() -> usize {
                 3
             }
@@ -652,8 +756,17 @@ macro_rules! minmax_add_alg {
             fn observe(t: &$item<i64>) -> i64 {
                 t.v
             }
+            /// thresholds around 0, around every element letter and at every once-modified letter
             fn preds(_n: usize) -> Vec<Pred> {
-                (-3..=3).map(|t| Pred::$pred(t)).collect()
+                let mut ts: Vec<i64> = (-3..=3).collect();
+                let elems: [i64; 3] = $elems;
+                for e in elems {
+                    ts.extend([e.saturating_sub(1), e, e.saturating_add(1)]);
+                    ts.extend($mods.iter().filter_map(|m: &i64| e.checked_add(*m)));
+                }
+                ts.sort();
+                ts.dedup();
+                ts.into_iter().map(|t| Pred::$pred(t)).collect()
             }
             fn holds(p: &Pred, o: &i64) -> bool {
                 match p {
@@ -671,12 +784,23 @@ macro_rules! minmax_add_alg {
         }
     };
 }
-minmax_add_alg!(AlgMinAdd, MinAdd, "MinAdd<i64>", min, VLe, <=, [0, 1, -2], [1, -1, 2]);
-minmax_add_alg!(AlgMaxAdd, MaxAdd, "MaxAdd<i64>", max, VGe, >=, [0, 1, -2], [1, -1, 2]);
-// elements equal to the extreme values of the type (which are also the identity of min / max), with
-// modifiers that move away from the extreme so that the plain array never overflows
-minmax_add_alg!(AlgMinAddExt, MinAdd, "MinAdd<i64> at i64::MAX", min, VLe, <=, [i64::MAX, 5, i64::MAX - 1], [-1, -3, -1]);
-minmax_add_alg!(AlgMaxAddExt, MaxAdd, "MaxAdd<i64> at i64::MIN", max, VGe, >=, [i64::MIN, -5, i64::MIN + 1], [1, 3, 1]);
+// The modifier alphabets contain 0 (= `i64::default()`, the identity of an additive modifier) next to +1 and
+// -1; the element values 0, 1, -2 under them pass through 0, 1 and -1.
+minmax_add_alg!(AlgMinAdd, MinAdd, "MinAdd<i64>", min, VLe, <=, [0, 1, -2], [1, -1, 2, 0], false);
+minmax_add_alg!(AlgMaxAdd, MaxAdd, "MaxAdd<i64>", max, VGe, >=, [0, 1, -2], [1, -1, 2, 0], false);
+// Elements equal to the extreme values of the type — for each item both the extreme that is its Default (the
+// identity of min / max) and the opposite one — with modifiers that move away from the extreme (and 0) so
+// that neither the plain array nor a pending sum of modifiers ever leaves the type.
+minmax_add_alg!(AlgMinAddExt, MinAdd, "MinAdd<i64> at i64::MAX", min, VLe, <=, [i64::MAX, 5, i64::MAX - 1], [-1, -3, 0], false);
+minmax_add_alg!(AlgMaxAddExt, MaxAdd, "MaxAdd<i64> at i64::MIN", max, VGe, >=, [i64::MIN, -5, i64::MIN + 1], [1, 3, 0], false);
+minmax_add_alg!(AlgMinAddLow, MinAdd, "MinAdd<i64> at i64::MIN", min, VLe, <=, [i64::MIN, -5, i64::MIN + 1], [1, 3, 0], false);
+minmax_add_alg!(AlgMaxAddHigh, MaxAdd, "MaxAdd<i64> at i64::MAX", max, VGe, >=, [i64::MAX, 5, i64::MAX - 1], [-1, -3, 0], false);
+// Modifiers equal to a limit of the type: from elements on the far side of 0 one such step fits.  A
+// modification that would take a covered element out of i64 is outside the domain and not explored
+// (`mod_ok`); what remains keeps every pending sum of modifiers inside the type as well (all elements under a
+// node received the node's pending sum, and at most one limit-sized step fits into an element).
+minmax_add_alg!(AlgMinAddStep, MinAdd, "MinAdd<i64>, += i64::MAX", min, VLe, <=, [0, -1, -5], [i64::MAX, -1, 0], true);
+minmax_add_alg!(AlgMaxAddStep, MaxAdd, "MaxAdd<i64>, += i64::MIN", max, VGe, >=, [0, 1, 5], [i64::MIN, 1, 0], true);
 
 pub struct AlgSumAdd;
 impl Alg for AlgSumAdd {
@@ -686,6 +810,7 @@ impl Alg for AlgSumAdd {
     /// (sum, number of elements)
     type Obs = (i64, i64);
     const NAME: &'static str = "SumAdd<i64>";
+    const DEFAULT_MOD_IS_IDENTITY: bool = true;
     fn n_elems() -> usize {
         3
     }
@@ -701,7 +826,7 @@ impl Alg for AlgSumAdd {
         Some(t)
     }
     fn mods() -> Vec<i64> {
-        vec![1, -1, 2]
+        vec![1, -1, 2, 0]
     }
     fn apply(e: &mut i64, m: &i64) {
         *e += *m;
@@ -750,13 +875,13 @@ impl<A, B> Alg for Comb<A, B>
 where
     A: Alg,
     B: Alg<M = A::M, E = A::E>,
-    A::M: Clone,
 {
     type T = Combinator<A::T, B::T>;
     type M = A::M;
     type E = A::E;
     type Obs = (A::Obs, B::Obs);
     const NAME: &'static str = "Combinator";
+    const DEFAULT_MOD_IS_IDENTITY: bool = A::DEFAULT_MOD_IS_IDENTITY && B::DEFAULT_MOD_IS_IDENTITY;
     fn n_elems() -> usize {
         A::n_elems()
     }
@@ -775,6 +900,10 @@ where
     }
     fn mods() -> Vec<A::M> {
         A::mods()
+    }
+    const HAS_DOMAIN: bool = A::HAS_DOMAIN || B::HAS_DOMAIN;
+    fn mod_ok(e: &A::E, m: &A::M) -> bool {
+        A::mod_ok(e, m) && B::mod_ok(e, m)
     }
     fn apply(e: &mut A::E, m: &A::M) {
         A::apply(e, m)
@@ -814,86 +943,110 @@ where
 }
 
 // ------------------------------------------------------------------------------------------------
-// Flip: a LAZY item whose modifier carries no data (M = ()): words over {0,1}, modify = complement.
+// Flip: a LAZY item whose modifier carries no data: words over {0,1}, modify = complement.  Driven with
+// M = () and with M = Toggle (a zero-sized struct of the harness): for both the ONLY modifier value is the
+// default one and it is not the identity, and `size_of::<M>() == 0` although something can be pending.
 
-#[derive(Clone, Debug, PartialEq, Default)]
+#[derive(Clone, Copy, Debug, PartialEq, Eq, Hash, PartialOrd, Ord, Default)]
 pub struct Flip {
     pub len: u8,
     pub bits: u64,
     pub pending: bool,
 }
 
-impl SegtreeItem<()> for Flip {
-    fn merge(l: &Self, r: &Self) -> Self {
+/// a zero-sized modifier type that is not `()`
+#[derive(Clone, Copy, Debug, PartialEq, Eq, Hash, PartialOrd, Ord, Default)]
+pub struct Toggle;
+
+impl Flip {
+    fn merged(l: &Self, r: &Self) -> Self {
         let len = (l.len as u32 + r.len as u32).min(64) as u8;
         let bits = if l.len >= 64 { l.bits } else { (l.bits | (r.bits << l.len)) & mask(len) };
         Flip { len, bits, pending: false }
     }
-    fn modify(&mut self, _m: &()) {
+    fn complement(&mut self) {
         self.bits = !self.bits & mask(self.len);
         if self.len >= 2 {
             self.pending = !self.pending;
         }
     }
-    fn push(&mut self, l: &mut Self, r: &mut Self) {
+    fn push_down(&mut self, l: &mut Self, r: &mut Self) {
         if self.pending {
-            l.modify(&());
-            r.modify(&());
+            l.complement();
+            r.complement();
             self.pending = false;
         }
     }
 }
 
-pub struct AlgFlip;
+macro_rules! flip_alg {
+    ($alg:ident, $m:ty, $unit:expr, $name:expr) => {
+        impl SegtreeItem<$m> for Flip {
+            fn merge(l: &Self, r: &Self) -> Self {
+                Flip::merged(l, r)
+            }
+            fn modify(&mut self, _m: &$m) {
+                self.complement()
+            }
+            fn push(&mut self, l: &mut Self, r: &mut Self) {
+                self.push_down(l, r)
+            }
+        }
 
-impl Alg for AlgFlip {
-    type T = Flip;
-    type M = ();
-    type E = u8;
-    type Obs = (u8, u64);
-    const NAME: &'static str = "Flip(words over {0,1}; data-less complement modifier, M = ())";
-    fn n_elems() -> usize {
-        2
-    }
-    fn elem(idx: usize, _f: &mut u32) -> u8 {
-        idx as u8
-    }
-    fn item(e: &u8) -> Flip {
-        Flip { len: 1, bits: *e as u64, pending: false }
-    }
-    fn dirty_item(e: &u8) -> Option<Flip> {
-        Some(Flip { len: 1, bits: *e as u64, pending: true })
-    }
-    fn mods() -> Vec<()> {
-        vec![()]
-    }
-    fn apply(e: &mut u8, _m: &()) {
-        *e ^= 1;
-    }
-    fn fold(xs: &[u8]) -> (u8, u64) {
-        AlgW::fold(xs)
-    }
-    fn observe(t: &Flip) -> (u8, u64) {
-        (t.len, t.bits)
-    }
-    fn obs_len(o: &(u8, u64)) -> Option<usize> {
-        Some(o.0 as usize)
-    }
-    fn preds(n: usize) -> Vec<Pred> {
-        AlgW::preds(n)
-    }
-    fn holds(p: &Pred, o: &(u8, u64)) -> bool {
-        AlgW::holds(p, o)
-    }
-    fn encode(t: &Flip, out: &mut Vec<u8>) {
-        out.push(t.len);
-        out.push(t.pending as u8);
-        out.extend_from_slice(&t.bits.to_le_bytes()[..2]);
-    }
-    fn encode_elem(e: &u8, out: &mut Vec<u8>) {
-        out.push(*e);
-    }
+        pub struct $alg;
+
+        impl Alg for $alg {
+            type T = Flip;
+            type M = $m;
+            type E = u8;
+            type Obs = (u8, u64);
+            const NAME: &'static str = $name;
+            fn n_elems() -> usize {
+                2
+            }
+            fn elem(idx: usize, _f: &mut u32) -> u8 {
+                idx as u8
+            }
+            fn item(e: &u8) -> Flip {
+                Flip { len: 1, bits: *e as u64, pending: false }
+            }
+            fn dirty_item(e: &u8) -> Option<Flip> {
+                Some(Flip { len: 1, bits: *e as u64, pending: true })
+            }
+            fn mods() -> Vec<$m> {
+                vec![$unit]
+            }
+            fn apply(e: &mut u8, _m: &$m) {
+                *e ^= 1;
+            }
+            fn fold(xs: &[u8]) -> (u8, u64) {
+                AlgW::fold(xs)
+            }
+            fn observe(t: &Flip) -> (u8, u64) {
+                (t.len, t.bits)
+            }
+            fn obs_len(o: &(u8, u64)) -> Option<usize> {
+                Some(o.0 as usize)
+            }
+            fn preds(n: usize) -> Vec<Pred> {
+                AlgW::preds(n)
+            }
+            fn holds(p: &Pred, o: &(u8, u64)) -> bool {
+                AlgW::holds(p, o)
+            }
+            fn encode(t: &Flip, out: &mut Vec<u8>) {
+                out.push(t.len);
+                out.push(t.pending as u8);
+                out.extend_from_slice(&t.bits.to_le_bytes()[..2]);
+            }
+            fn encode_elem(e: &u8, out: &mut Vec<u8>) {
+                out.push(*e);
+            }
+        }
+    };
 }
+flip_alg!(AlgFlip, (), (), "Flip(words over {0,1}; data-less complement modifier, M = ())");
+flip_alg!(AlgFlipZ, Toggle, Toggle, "FlipZ(words over {0,1}; data-less complement modifier, M = a zero-sized struct)");
 
 // ------------------------------------------------------------------------------------------------
 // Min / Max over records that are ordered and compared BY KEY ONLY: equal keys are different elements.
@@ -909,9 +1062,25 @@ impl PartialEq for Rec {
         self.key == o.key
     }
 }
+impl Eq for Rec {}
 impl PartialOrd for Rec {
     fn partial_cmp(&self, o: &Rec) -> Option<std::cmp::Ordering> {
-        self.key.partial_cmp(&o.key)
+        Some(self.cmp(o))
+    }
+}
+impl Ord for Rec {
+    fn cmp(&self, o: &Rec) -> std::cmp::Ordering {
+        self.key.cmp(&o.key)
+    }
+}
+impl std::hash::Hash for Rec {
+    fn hash<H: std::hash::Hasher>(&self, h: &mut H) {
+        self.key.hash(h)
+    }
+}
+impl Default for Rec {
+    fn default() -> Rec {
+        Rec { key: 0, id: 0 }
     }
 }
 impl rlib_num_traits::MinMax for Rec {
@@ -928,6 +1097,7 @@ macro_rules! rec_alg {
             type E = (u8, u32);
             type Obs = (u8, u32);
             const NAME: &'static str = $name;
+            const DEFAULT_MOD_IS_IDENTITY: bool = true;
             fn n_elems() -> usize {
                 2
             }
@@ -981,9 +1151,24 @@ rec_alg!(AlgMaxRec, Max, "Max<record compared by key only>", max, VGe, >=);
 // AP: "add an arithmetic progression on a range" over Z5.  A modifier (l, s, d) adds s + d*(i - l) to the
 // element at absolute index i >= l.  Items record the absolute index of their first element; the pending
 // tag is kept RELATIVE to that index, so `push` treats its two children differently (the right child
-// continues the progression after the left child's elements).
+// continues the progression after the left child's elements).  The modifier is a struct of the harness whose
+// Default is the progression (l = 0, s = 2, d = 3): a letter of the alphabet for ranges that start at 0,
+// and not the identity although the modifiers are additive.
 
-#[derive(Clone, Debug, PartialEq)]
+#[derive(Clone, Copy, Debug, PartialEq, Eq, Hash, PartialOrd, Ord)]
+pub struct ApMod {
+    pub l: u8,
+    pub s: u8,
+    pub d: u8,
+}
+
+impl Default for ApMod {
+    fn default() -> Self {
+        ApMod { l: 0, s: 2, d: 3 }
+    }
+}
+
+#[derive(Clone, Debug, PartialEq, Eq, Hash, PartialOrd, Ord)]
 pub struct Ap {
     pub lo: u8,
     pub vals: Vec<u8>,
@@ -1008,17 +1193,17 @@ impl Ap {
     }
 }
 
-impl SegtreeItem<(u8, u8, u8)> for Ap {
+impl SegtreeItem<ApMod> for Ap {
     fn merge(l: &Self, r: &Self) -> Self {
         let mut vals = l.vals.clone();
         vals.extend_from_slice(&r.vals);
         vals.truncate(64);
         Ap { lo: if l.vals.is_empty() { r.lo } else { l.lo }, vals, tag: (0, 0) }
     }
-    fn modify(&mut self, m: &(u8, u8, u8)) {
+    fn modify(&mut self, m: &ApMod) {
         // this node lies inside the modified range, so lo >= l
-        let off = (self.lo as usize).wrapping_sub(m.0 as usize) % 5;
-        self.add_rel((m.1 as usize + m.2 as usize * off) % 5, m.2 as usize);
+        let off = (self.lo as usize).wrapping_sub(m.l as usize) % 5;
+        self.add_rel((m.s as usize + m.d as usize * off) % 5, m.d as usize);
     }
     fn push(&mut self, l: &mut Self, r: &mut Self) {
         if self.tag != (0, 0) {
@@ -1034,7 +1219,7 @@ pub struct AlgAp;
 
 impl Alg for AlgAp {
     type T = Ap;
-    type M = (u8, u8, u8);
+    type M = ApMod;
     type E = u8;
     type Obs = Vec<u8>;
     const NAME: &'static str = "AP(words over Z5; add an arithmetic progression - asymmetric push)";
@@ -1056,18 +1241,17 @@ impl Alg for AlgAp {
     fn dirty_item_at(e: &u8, i: usize) -> Option<Ap> {
         Some(Ap { lo: i as u8, vals: vec![*e], tag: (1, 2) })
     }
-    fn mods() -> Vec<(u8, u8, u8)> {
-        vec![(0, 0, 1), (0, 1, 0), (0, 2, 3)]
+    fn mods() -> Vec<ApMod> {
+        vec![ApMod { l: 0, s: 0, d: 1 }, ApMod { l: 0, s: 1, d: 0 }, ApMod { l: 0, s: 2, d: 3 }]
     }
-    fn modifier(idx: usize, l: usize) -> (u8, u8, u8) {
-        let m = Self::mods()[idx];
-        (l as u8, m.1, m.2)
+    fn modifier(idx: usize, l: usize) -> ApMod {
+        ApMod { l: l as u8, ..Self::mods()[idx] }
     }
-    fn apply(_e: &mut u8, _m: &(u8, u8, u8)) {
+    fn apply(_e: &mut u8, _m: &ApMod) {
         unreachable!("AP modifiers are applied through apply_at")
     }
-    fn apply_at(e: &mut u8, m: &(u8, u8, u8), k: usize) {
-        *e = ((*e as usize + m.1 as usize + m.2 as usize * k) % 5) as u8;
+    fn apply_at(e: &mut u8, m: &ApMod, k: usize) {
+        *e = ((*e as usize + m.s as usize + m.d as usize * k) % 5) as u8;
     }
     fn fold(xs: &[u8]) -> Vec<u8> {
         xs.to_vec()
@@ -1108,11 +1292,12 @@ impl Alg for AlgAp {
 // The translations below are chosen so that the two parts of a pair are INDEPENDENT: modifiers that cancel
 // in the built-in part (+1 then -1, or 0) do not cancel in the harness part, a modifier that is the
 // identity of the harness part (+2 for the words) is not the identity of the built-in part, and the
-// harness part's modifiers do not commute.
+// harness part's modifiers do not commute.  The DEFAULT value of the outer modifier type (0, Z4(0), ()) is in
+// every alphabet and is translated to a non-identity of the harness part.
 
 pub trait Tr: Send + Sync + 'static {
     /// the outer modifier type (the built-in item's)
-    type K: Clone + PartialEq + Send + Sync + std::fmt::Debug;
+    type K: Copy + Default + Eq + Ord + std::hash::Hash + Send + Sync + std::fmt::Debug + 'static;
     /// the harness algebra's own modifier type
     type M;
     fn alphabet() -> Vec<Self::K>;
@@ -1139,6 +1324,28 @@ impl<T: Default, X> Default for Via<T, X> {
 impl<T: std::fmt::Debug, X> std::fmt::Debug for Via<T, X> {
     fn fmt(&self, f: &mut std::fmt::Formatter<'_>) -> std::fmt::Result {
         self.0.fmt(f)
+    }
+}
+impl<T: Copy, X> Copy for Via<T, X> {}
+impl<T: PartialEq, X> PartialEq for Via<T, X> {
+    fn eq(&self, o: &Self) -> bool {
+        self.0 == o.0
+    }
+}
+impl<T: Eq, X> Eq for Via<T, X> {}
+impl<T: PartialOrd, X> PartialOrd for Via<T, X> {
+    fn partial_cmp(&self, o: &Self) -> Option<std::cmp::Ordering> {
+        self.0.partial_cmp(&o.0)
+    }
+}
+impl<T: Ord, X> Ord for Via<T, X> {
+    fn cmp(&self, o: &Self) -> std::cmp::Ordering {
+        self.0.cmp(&o.0)
+    }
+}
+impl<T: std::hash::Hash, X> std::hash::Hash for Via<T, X> {
+    fn hash<H: std::hash::Hasher>(&self, h: &mut H) {
+        self.0.hash(h)
     }
 }
 
@@ -1178,6 +1385,10 @@ impl<A: Alg, X: Tr<M = A::M>> Alg for ViaAlg<A, X> {
     }
     fn mods() -> Vec<X::K> {
         X::alphabet()
+    }
+    const HAS_DOMAIN: bool = A::HAS_DOMAIN;
+    fn mod_ok(e: &A::E, k: &X::K) -> bool {
+        A::mod_ok(e, &X::tr(k))
     }
     fn apply(e: &mut A::E, k: &X::K) {
         A::apply(e, &X::tr(k))
@@ -1271,21 +1482,22 @@ impl Tr for AddAsAffine {
     }
 }
 
-/// Z4 additions -> functions {0,1}->{0,1}: 1 -> not, 2 -> const0, 3 -> const1 (1+3 = 2+2 = 0 in Z4, while
-/// not∘const1, const0∘const0 are not the identity) — finite on both sides, so the pair closes
+/// Z4 additions -> functions {0,1}->{0,1}, a bijection that maps neither identity to the other: 1 -> not,
+/// 2 -> const0, 3 -> identity, 0 -> const1 (1+3 = 2+2 = 0 in Z4, while identity∘not, const0∘const0 are not the
+/// identity) — finite on both sides, so the pair closes
 pub struct Z4AsFn;
 impl Tr for Z4AsFn {
     type K = Z4;
     type M = u8;
     fn alphabet() -> Vec<Z4> {
-        vec![Z4(1), Z4(2), Z4(3)]
+        vec![Z4(1), Z4(2), Z4(3), Z4(0)]
     }
     fn tr(k: &Z4) -> u8 {
         match k.0 {
             1 => 0b01,
             2 => 0b00,
-            3 => 0b11,
-            _ => ID,
+            3 => ID,
+            _ => 0b11,
         }
     }
 }
@@ -1324,13 +1536,14 @@ impl<A, B> Alg for Pair<A, B>
 where
     A: Alg,
     B: Alg<M = A::M>,
-    A::M: Clone + PartialEq,
 {
     type T = Combinator<A::T, B::T>;
     type M = A::M;
     type E = (A::E, B::E);
     type Obs = (A::Obs, B::Obs);
     const NAME: &'static str = "Pair";
+    /// the component-wise default: a non-identity as soon as it is one for either part
+    const DEFAULT_MOD_IS_IDENTITY: bool = A::DEFAULT_MOD_IS_IDENTITY && B::DEFAULT_MOD_IS_IDENTITY;
     /// two element letters, (first of A, first of B) and (second of A, second of B) (an alphabet of one letter
     /// repeating): the parts interact through their pending modifiers, not through their values, and the
     /// range modifications make the values differ anyway; the full element alphabets are explored in the
@@ -1366,6 +1579,10 @@ where
             }
         }
         v
+    }
+    const HAS_DOMAIN: bool = A::HAS_DOMAIN || B::HAS_DOMAIN;
+    fn mod_ok(e: &Self::E, m: &A::M) -> bool {
+        A::mod_ok(&e.0, m) && B::mod_ok(&e.1, m)
     }
     fn apply(e: &mut Self::E, m: &A::M) {
         A::apply(&mut e.0, m);
